@@ -123,8 +123,9 @@ TraceBuild ==
     /\ IsEvent("build")
     /\ BuildCache
     /\ cache' = Ev[l].katt
-    /\ Ev[l].yold = j
-    /\ Ev[l].ynew = j + 1
+    \* DOP853 passes the end states of the segment (0 = the RK45 builder takes no such argument)
+    /\ (Ev[l].yold # 0) => (Ev[l].yold = j /\ Ev[l].ynew = j + 1)
+    /\ Ev[l].argsok = 1                \* t_old, hseg, f_old, f_new belong to the same segment
 
 TraceEval ==
     /\ IsEvent("eval")
